@@ -33,18 +33,31 @@ func Silence() { gobinlog.SetLogger(NopLogger{}) }
 type column struct {
 	name     string
 	unsigned bool
+	m        *Mapper
 }
 
-func (c column) Field() string       { return c.name }
-func (c column) IsUnSignedInt() bool { return c.unsigned }
+func (c column) Field() string       { c.m.hook("Field"); return c.name }
+func (c column) IsUnSignedInt() bool { c.m.hook("IsUnSignedInt"); return c.unsigned }
 
 type table struct {
 	name gobinlog.MysqlTableName
 	cols []gobinlog.MysqlColumn
+	m    *Mapper
 }
 
-func (t table) Name() gobinlog.MysqlTableName   { return t.name }
-func (t table) Columns() []gobinlog.MysqlColumn { return t.cols }
+func (t table) Name() gobinlog.MysqlTableName   { t.m.hook("Name"); return t.name }
+func (t table) Columns() []gobinlog.MysqlColumn { t.m.hook("Columns"); return t.cols }
+
+// hook calls Hook for one call of the library into the mapper's values.
+func (m *Mapper) hook(what string) {
+	if m == nil {
+		return
+	}
+	m.Callbacks++
+	if m.Hook != nil {
+		m.Hook(m.Callbacks-1, what)
+	}
+}
 
 // MapperCall is one logged call of the table mapper.
 type MapperCall struct {
@@ -65,6 +78,11 @@ type Mapper struct {
 	// min(j, last) (a schema that changes while the stream runs).
 	Versions map[string][]*ref.Table
 	lookups  map[string]int
+	// Hook, when set, is called at every call of the library into the mapper or
+	// into a table / column value it handed out (k counts them from 0):
+	// user code runs there, anything may happen in it
+	Hook      func(k int, what string)
+	Callbacks int
 }
 
 // NewMapper builds a mapper knowing the given tables.
@@ -80,6 +98,7 @@ func NewMapper(tables ...*ref.Table) *Mapper {
 var ErrMapper = errors.New("scripted mapper failure")
 
 func (m *Mapper) MysqlTable(name gobinlog.MysqlTableName) (gobinlog.MysqlTable, error) {
+	m.hook("MysqlTable")
 	k := len(m.Calls)
 	call := MapperCall{DB: name.DbName, Table: name.TableName, Result: "ok"}
 	defer func() { m.Calls = append(m.Calls, call) }()
@@ -103,13 +122,13 @@ func (m *Mapper) MysqlTable(name gobinlog.MysqlTableName) (gobinlog.MysqlTable, 
 		call.Result = "error"
 		return nil, fmt.Errorf("unknown table %s.%s", name.DbName, name.TableName)
 	}
-	tb := table{name: name}
+	tb := table{name: name, m: m}
 	for _, c := range t.Cols {
-		tb.cols = append(tb.cols, column{c.Name, c.Unsigned})
+		tb.cols = append(tb.cols, column{c.Name, c.Unsigned, m})
 	}
 	if k == m.MismatchAt {
 		call.Result = "mismatch"
-		tb.cols = append(tb.cols, column{"extra", false})
+		tb.cols = append(tb.cols, column{"extra", false, m})
 	}
 	return tb, nil
 }
@@ -269,6 +288,54 @@ func Scribble(t *gobinlog.Transaction) {
 			}
 		}
 	}
+}
+
+// Wipe is the handler that OWNS what it was given: after Scribble it overwrites
+// every field of every value reachable from the transaction (names, types,
+// flags, positions, time stamps, the elements of every slice over its whole
+// capacity) and finally the Transaction struct itself. Nothing the library
+// does later may depend on the object it handed out.
+func Wipe(t *gobinlog.Transaction) {
+	Scribble(t)
+	evs := t.Events[:cap(t.Events)]
+	for _, e := range evs {
+		if e == nil {
+			continue
+		}
+		for _, rsp := range []*[]*gobinlog.RowData{&e.RowValues, &e.RowIdentifies} {
+			rs := (*rsp)[:cap(*rsp)]
+			for _, r := range rs {
+				if r == nil {
+					continue
+				}
+				cols := r.Columns[:cap(r.Columns)]
+				for _, c := range cols {
+					if c == nil {
+						continue
+					}
+					c.Filed, c.Type, c.IsEmpty, c.Data = "wiped", 0xee, !c.IsEmpty, []byte("wiped")
+				}
+				for i := range cols {
+					cols[i] = nil
+				}
+				r.Columns = nil
+			}
+			for i := range rs {
+				rs[i] = nil
+			}
+			*rsp = nil
+		}
+		if e.Query.Charset != nil {
+			e.Query.Charset.Client, e.Query.Charset.Conn, e.Query.Charset.Server = 0xeeee, 0xeeee, 0xeeee
+		}
+		e.Type, e.Timestamp = 99, -1
+		e.Table.DbName, e.Table.TableName = "wiped", "wiped"
+		e.Query.Database, e.Query.SQL, e.Query.Charset = "wiped", "wiped", nil
+	}
+	for i := range evs {
+		evs[i] = nil
+	}
+	*t = gobinlog.Transaction{NowPosition: gobinlog.Position{Filename: "wiped", Offset: 1}, NextPosition: gobinlog.Position{Filename: "wiped.000001", Offset: 2}, Timestamp: -1}
 }
 
 // ---- comparison with the reference -------------------------------------------
